@@ -32,7 +32,16 @@
    * a thread whose heap is not initialised skips _mi_segment_attempt_reclaim after the load in mi_free_block_mt: the model's
      second load (Fr2, heur = false, no effect) is then taken without a log record.
    * segment->abandoned_visits (private to the holder) is compared with the model's g_visits when the holder stores thread_id.
-   * abandoned_os_list_count and arena->abandoned_visit_lock are not in the model: ignored.
+   * arena->abandoned_visit_lock is not in the model: ignored.  abandoned_os_list_count is not in the model either, but it is what
+     the theorem C09_collect_frees_dead_abandoned_gen assumes about a cursor (as many list visits as the sub-process has entries:
+     os_count <= n_os), so two implementation-side facts are checked on the log: (a) at every release of abandoned_os_lock the
+     counter equals the length of the abandoned OS list printed at that release (both are only changed under the lock);
+     (b) the OS-list part of every cursor of a collect (mi_collect, mi_thread_done: _mi_abandoned_reclaim_all / _mi_abandoned_collect;
+     not mi_segment_try_reclaim, whose loop has other exits) is the loop of mi_arena_segment_clear_abandoned_next_list: with c0 the value
+     of abandoned_os_list_count loaded by _mi_arena_field_cursor_init, the cursor takes abandoned_os_lock for a pop exactly c0 times
+     unless a pop found the list empty or the max_tries of a forced _mi_abandoned_collect (the abandoned_count loaded right after the
+     cursor init) were used up by the segments returned so far or the visit lock was not obtained.  (Heaps bound to one arena get
+     os_list_count = 0; the harness creates none in this mode.)
    * a segment freed by its owner after the last local free (`D` for an owned segment) has no model transition: the
      segment is marked freed (owner-private, like malloc).
    Output: MISMATCH lines (with the log line number), one STAT line, HIST lines (model transitions taken, by pc). *)
@@ -111,6 +120,12 @@ let lockstep records mismatches =
   let model_steps = ref 0 and truncated = ref 0 and visits_bad = ref 0 in
   let stopped = ref false in
   let curline = ref "" in
+  (* the OS-list part of a cursor, per thread (see the header): c0 = os_list_count at the cursor init, m = max_tries when loaded *)
+  let cur_active = Array.make 16 false and cur_c0 = Array.make 16 0 and cur_m = Array.make 16 (-1) and cur_await_m = Array.make 16 false in
+  let cur_pops = Array.make 16 0 and cur_ret = Array.make 16 0 and cur_vlock = Array.make 16 false and cur_empty = Array.make 16 false in
+  let cur_inpop = Array.make 16 false and cur_popped = Array.make 16 false and cur_unknown = Array.make 16 false in
+  let oscount_now : (int, int) Hashtbl.t = Hashtbl.create 4 in
+  let cursors_checked = ref 0 and cursor_pops = ref 0 in
   let describe (c : A.state) (segs : int list) =
     let segs = L.sort_uniq compare segs in
     let b = Buffer.create 256 in
@@ -282,6 +297,59 @@ let lockstep records mismatches =
     end else cands := good in
   let freed_ok (c : A.state) = L.for_all (fun x -> x) (L.mapi (fun k g -> (not g.A.g_freed) || Hashtbl.mem dead k) c.A.segs) in
   let parse_ids l = L.map (fun x -> if x = "?" then -1 else int_of_string x) l in
+  let cursor_end t =
+    if t < 16 && cur_active.(t) then begin
+      cur_active.(t) <- false;
+      let call = ctxs.(t).call in
+      if (call = "collect" || call = "done") && cur_vlock.(t) && not cur_unknown.(t) then begin
+        incr cursors_checked; cursor_pops := !cursor_pops + cur_pops.(t);
+        let tries_left = cur_m.(t) < 0 || cur_ret.(t) < cur_m.(t) in
+        if cur_pops.(t) < cur_c0.(t) && (not cur_empty.(t)) && tries_left then
+          fail (Printf.sprintf "the cursor of thread %d (call: %s) stopped after %d of %d visits of the abandoned OS list (abandoned_os_list_count at the cursor init) although no pop found the list empty and %s"
+                  t call cur_pops.(t) cur_c0.(t)
+                  (if cur_m.(t) < 0 then "the loop has no try limit" else Printf.sprintf "only %d of max_tries = %d segments had been returned" cur_ret.(t) cur_m.(t)))
+      end
+    end in
+  (* called for every S record BEFORE the model moves *)
+  let cursor_track t k loc id o nw ids =
+    if t < 16 then begin
+      let was_await = cur_await_m.(t) in
+      cur_await_m.(t) <- false;
+      (match loc, k with
+       | "oscount", "L" ->
+         cursor_end t;
+         cur_active.(t) <- true; cur_c0.(t) <- o; cur_m.(t) <- (-1); cur_await_m.(t) <- true; cur_pops.(t) <- 0; cur_ret.(t) <- 0;
+         cur_vlock.(t) <- false; cur_empty.(t) <- false; cur_inpop.(t) <- false; cur_popped.(t) <- false; cur_unknown.(t) <- false
+       | "count", "L" when was_await && cur_active.(t) -> cur_m.(t) <- o
+       | "count", "-" when cur_active.(t) -> cur_ret.(t) <- cur_ret.(t) + 1
+       | "vlock", ("K" | "B") when cur_active.(t) && o = 0 -> cur_vlock.(t) <- true
+       | "vlock", "U" -> cursor_end t
+       | "lock", "B" when cur_active.(t) && cur_vlock.(t) ->
+         (* a pop of the cursor (Vo1 / a new OVisitOs) or the push of _mi_arena_segment_mark_abandoned (Ab3)? *)
+         let kinds = L.sort_uniq compare (L.map (fun ((c : A.state), _) ->
+             let th = thread c t in
+             match th.A.t_pc, th.A.t_prog with
+             | A.Vo1 _, _ | A.Idle, [] -> 1
+             | A.Ab3 _, _ -> 2
+             | _ -> 3) !cands) in
+         (match kinds with
+          | [1] -> cur_pops.(t) <- cur_pops.(t) + 1; cur_inpop.(t) <- true; cur_popped.(t) <- false
+          | [2] -> ()
+          | _ -> cur_unknown.(t) <- true)
+       | "oscount", "-" when cur_inpop.(t) -> cur_popped.(t) <- true
+       | "lock", "U" when cur_inpop.(t) -> if not cur_popped.(t) then cur_empty.(t) <- true; cur_inpop.(t) <- false
+       | _ -> ());
+      (* the counter itself *)
+      (match loc, k with
+       | "oscount", ("+" | "-") -> Hashtbl.replace oscount_now id nw
+       | "oscount", "L" -> Hashtbl.replace oscount_now id o
+       | "lock", "U" ->
+         (match Hashtbl.find_opt oscount_now id with
+          | Some v when v <> L.length ids ->
+            fail (Printf.sprintf "abandoned_os_list_count of sub-process %d is %d but the abandoned OS list has %d entries at the release of abandoned_os_lock" id v (L.length ids))
+          | _ -> ())
+       | _ -> ())
+    end in
   (try
     while true do
       let line = input_line stdin in
@@ -328,6 +396,7 @@ let lockstep records mismatches =
       | ["R"; t] ->
         incr records;
         let t = int_of_string t in
+        cursor_end t;
         let cx = ctxs.(t) in
         if cx.call = "free" && not cx.started then fail (Printf.sprintf "mi_free of thread %d returned without a load of thread_id" t)
         else begin
@@ -387,6 +456,10 @@ let lockstep records mismatches =
         incr records; incr steps;
         let t = int_of_string t in
         let ids = match rest with ":" :: l -> parse_ids l | _ -> [] in
+        (match int_of_string_opt id, int_of_string_opt o, int_of_string_opt nw with
+         | Some idn, Some on, Some nwn -> cursor_track t k loc idn on nwn ids
+         | _ -> ());
+        if not !stopped then
         (match loc with
          | "oscount" | "alock" -> incr ignored
          | "field" ->
@@ -467,9 +540,9 @@ let lockstep records mismatches =
          if c.A.threads <> c2.A.threads then Printf.printf "# final cand %d: threads differ\n" (j + 1) end) rest
      | [] -> ());
   (match !cands with (_, path) :: _ -> L.iter (fun p -> bump p; incr model_steps) path | [] -> ());
-  Printf.printf "STAT abandon-lockstep lines=%d atomic_steps=%d inv_b_checks=%d model_steps=%d max_state_set=%d final_state_set=%d segments=%d freed=%d skipped_owner_loads=%d stale_ands=%d stutter_loads=%d owner_frees=%d field_loads=%d ignored=%d truncated=%d\n"
+  Printf.printf "STAT abandon-lockstep lines=%d atomic_steps=%d inv_b_checks=%d model_steps=%d max_state_set=%d final_state_set=%d segments=%d freed=%d skipped_owner_loads=%d stale_ands=%d stutter_loads=%d owner_frees=%d field_loads=%d ignored=%d truncated=%d collect_cursors_checked=%d os_list_pops=%d\n"
     !lineno !steps !inv_checked !model_steps !maxset (L.length !cands) (match !cands with (c, _) :: _ -> L.length c.A.segs | [] -> 0) (Hashtbl.length dead)
-    !skipped_loads !stale_ands !stutter !owner_frees !field_loads !ignored !truncated;
+    !skipped_loads !stale_ands !stutter !owner_frees !field_loads !ignored !truncated !cursors_checked !cursor_pops;
   Printf.printf "HIST %s\n" (String.concat " " (L.map (fun nm -> Printf.sprintf "%s=%d" nm (try Hashtbl.find hist nm with Not_found -> 0)) all_pc_names))
 
 let () = Modes.register "abandon-lockstep" lockstep
